@@ -240,20 +240,7 @@ Proof.
   intros prior. apply face_trans_truecolor.
 Qed.
 
-Lemma c05_face_reduced_thm :
-  forall (pal256 gray4 : rgba -> N), (forall c, pal256 c < 256) ->
-  forall (cp : caps) (f : face) (c : rgba), cmd_ok (Face f) = true ->
-  cp_depth cp <> TrueColor -> f_fg f = Some c ->
-  exists bs t n, encode pal256 gray4 cp (Face f) = Ok bs /\ vt_ops bs = [OSgr t] /\
-    (forall prior, r_fg (rt_apply t prior) = CIdx n) /\
-    n = match cp_depth cp with EightBit => pal256 c | _ => gray_entry (gray4 c) end.
-Proof.
-  intros pal gray Hp cp f c Hok Hd Hf.
-  destruct (encode_meaning pal gray Hp cp (Face f) Hok) as (bs & E & M & _).
-  destruct (face_trans_reduced pal gray (cp_depth cp) f c (mkRend INormal false LNone false false false false CDefault CDefault CDefault) Hd Hf) as (n & _ & Hn).
-  exists bs, (face_trans pal gray (cp_depth cp) f), n. split; [exact E|]. split; [exact M|]. split; [|exact Hn].
-  intros prior. destruct (face_trans_reduced pal gray (cp_depth cp) f c prior Hd Hf) as (n' & H1 & H2). congruence.
-Qed.
+
 
 Lemma c05_selfcontained_thm :
   forall (pal256 gray4 : rgba -> N), (forall c, pal256 c < 256) ->
@@ -328,4 +315,68 @@ Proof.
   destruct (encode_meaning pal256_exact gray4_exact pal256_exact_byte (mkCaps d gl ki) _ Hok) as (bs & E & M & C).
   exists bs. rewrite encode_c20_eq. split; [exact E|]. split; [apply C; reflexivity|].
   rewrite M. destruct d; reflexivity.
+Qed.
+
+(* ---------- C05: reduced depths select one palette entry per colour, every role ---------- *)
+Definition reduced_entry (pal256 gray4 : rgba -> N) (d : depth) (c : rgba) : N :=
+  match d with EightBit => pal256 c | _ => gray_entry (gray4 c) end.
+
+Definition reduced_colour pal256 gray4 d (c : option rgba) : colour :=
+  match c with Some c => CIdx (reduced_entry pal256 gray4 d c) | None => CDefault end.
+
+Lemma face_trans_reduced_both pal256 gray4 d f prior :
+  d <> TrueColor ->
+  r_fg (rt_apply (face_trans pal256 gray4 d f) prior) = reduced_colour pal256 gray4 d (f_fg f) /\
+  r_bg (rt_apply (face_trans pal256 gray4 d f) prior) = reduced_colour pal256 gray4 d (f_bg f) /\
+  r_ulc (rt_apply (face_trans pal256 gray4 d f) prior) = CDefault.
+Proof.
+  intros Hd. unfold face_trans, rt_apply, reduced_colour, reduced_entry. cbn [r_fg r_bg r_ulc t_fg t_bg t_ulc pick].
+  destruct d; [congruence | |]; destruct (f_fg f), (f_bg f); repeat split; reflexivity.
+Qed.
+
+(* FaceModify: each named colour becomes one palette entry; an unnamed one is left alone
+   (or reset); under Gray the underline colour is not sent at all *)
+Lemma fm_trans_reduced_fields pal256 gray4 d m :
+  d <> TrueColor ->
+  let t := fm_trans pal256 gray4 d m in
+  let base := if fm_reset m then rt_reset else rt_id in
+  let idx (c : option rgba) := option_map (fun c => CIdx (reduced_entry pal256 gray4 d c)) c in
+  t_fg t = over (idx (fm_fg m)) (t_fg base) /\
+  t_bg t = over (idx (fm_bg m)) (t_bg base) /\
+  t_ulc t = match d with Gray => t_ulc base | _ => over (idx (fm_ucolor m)) (t_ulc base) end.
+Proof.
+  intros Hd. unfold fm_trans, reduced_entry. cbn [t_fg t_bg t_ulc].
+  destruct d; [congruence | |]; destruct (fm_fg m), (fm_bg m), (fm_ucolor m); repeat split; reflexivity.
+Qed.
+
+Lemma c05_face_reduced_thm :
+  forall (pal256 gray4 : rgba -> N), (forall c, pal256 c < 256) ->
+  forall (cp : caps) (f : face), cmd_ok (Face f) = true -> cp_depth cp <> TrueColor ->
+  exists bs t, encode pal256 gray4 cp (Face f) = Ok bs /\ vt_ops bs = [OSgr t] /\
+    forall prior,
+      r_fg (rt_apply t prior) = reduced_colour pal256 gray4 (cp_depth cp) (f_fg f) /\
+      r_bg (rt_apply t prior) = reduced_colour pal256 gray4 (cp_depth cp) (f_bg f) /\
+      r_ulc (rt_apply t prior) = CDefault.
+Proof.
+  intros pal gray Hp cp f Hok Hd.
+  destruct (encode_meaning pal gray Hp cp (Face f) Hok) as (bs & E & M & _).
+  exists bs, (face_trans pal gray (cp_depth cp) f). split; [exact E|]. split; [exact M|].
+  intros prior. apply face_trans_reduced_both, Hd.
+Qed.
+
+Lemma c05_facemodify_reduced_thm :
+  forall (pal256 gray4 : rgba -> N), (forall c, pal256 c < 256) ->
+  forall (cp : caps) (m : facemod), cmd_ok (FaceModify m) = true -> cp_depth cp <> TrueColor ->
+  exists bs, encode pal256 gray4 cp (FaceModify m) = Ok bs /\
+    let t := fm_trans pal256 gray4 (cp_depth cp) m in
+    let base := if fm_reset m then rt_reset else rt_id in
+    let idx (c : option rgba) := option_map (fun c => CIdx (reduced_entry pal256 gray4 (cp_depth cp) c)) c in
+    vt_ops bs = (if rtrans_is_id t then [] else [OSgr t]) /\
+    t_fg t = over (idx (fm_fg m)) (t_fg base) /\
+    t_bg t = over (idx (fm_bg m)) (t_bg base) /\
+    t_ulc t = match cp_depth cp with Gray => t_ulc base | _ => over (idx (fm_ucolor m)) (t_ulc base) end.
+Proof.
+  intros pal gray Hp cp m Hok Hd.
+  destruct (encode_meaning pal gray Hp cp (FaceModify m) Hok) as (bs & E & M & _).
+  exists bs. split; [exact E|]. split; [exact M|]. apply fm_trans_reduced_fields, Hd.
 Qed.
